@@ -128,9 +128,24 @@ func VerifC02_Nesting(dir, node, pos, kind int) {
 		return
 	}
 	n := node
-	if !c02Insert(&tree, &n, pos, c02Unknown(kind)) {
+	// kinds 7 and 8: two unknown elements in a row (a leaf and a leaf, a structure and a leaf)
+	first, second := kind, -1
+	switch kind {
+	case 7:
+		first, second = 0, 0
+	case 8:
+		first, second = 3, 0
+	}
+	if !c02Insert(&tree, &n, pos, c02Unknown(first)) {
 		verifReach("no such position")
 		return
+	}
+	if second >= 0 {
+		n = node
+		if !c02Insert(&tree, &n, pos+1, c02Unknown(second)) {
+			verifReach("no such position")
+			return
+		}
 	}
 	bin := ttlv.MarshalTTLV(tree)
 	xmlDoc := ttlv.MarshalXML(tree)
